@@ -364,6 +364,19 @@ func (c16) Run(t *testing.T, sc *Scenario) *Outcome {
 		if ex1.Digest() != ex2.Digest() {
 			o.viol("C16", "prog-altered", "second execution of one Prog differs from the first", describeExecDiff(ex1, ex2), sc)
 		}
+		// a call that brings writers of its own must not re-wire the Prog for later calls
+		func() {
+			defer func() { recover() }()
+			var ob, lb bytes.Buffer
+			bcl.Execute(mem.Prog, bcl.OptOutput(&ob), bcl.OptLogger(&lb))
+			o1, l1 := mem.OutBuf.Len(), mem.LogBuf.Len()
+			bcl.Execute(mem.Prog)
+			plainOut, plainLog := mem.OutBuf.String()[o1:], mem.LogBuf.String()[l1:]
+			if ex1.Panic == "" && (plainOut != ex1.Out || plainLog != ex1.Log) {
+				o.viol("C16", "prog-altered", "an Execute with writers of its own changes where later executions of the Prog write",
+					fmt.Sprintf("after Execute(prog, OptOutput(w)), a plain Execute(prog) wrote %q / %q to the Prog's writers, the first execution wrote %q / %q", short(plainOut, 150), short(plainLog, 100), short(ex1.Out, 150), short(ex1.Log, 100)), sc)
+			}
+		}()
 		// the same program parsed, dumped and executed at once (refParts) must agree with the Prog that waited
 		waited := []string{"dump=" + string(d0), "output=" + ex1.Out, "warnings=" + ex1.Log, "error=" + ex1.Err}
 		for _, w := range waited {
